@@ -10,27 +10,49 @@ class Gen:
 
     def __init__(self, rng):
         self.rng = rng
-        self.kinds = []        # per promise id: 'int' | 'void' | 'all' | 'any'
-        self.roots = []        # ids created by N
+        self.kinds = []        # per promise id: 'int' | 'void' | 'all' | 'any' | 'inner' (returned by a callback: no id-level access)
+        self.roots = []        # ids created by N / M
         self.ops = []
         self.nconts = 0
+        self.pend = []         # continuations whose callback returns a pending promise
+        self.dropped = set()
+
+    def usable(self, kinds=None):
+        return [i for i, k in enumerate(self.kinds) if k != "inner" and i not in self.dropped and (kinds is None or k in kinds)]
 
     def new(self):
-        self.roots.append(len(self.kinds)); self.kinds.append("int"); self.ops.append("N")
+        self.roots.append(len(self.kinds))
+        if self.rng.random() < 0.2:
+            self.kinds.append("void"); self.ops.append("M")
+        else:
+            self.kinds.append("int"); self.ops.append("N")
 
     def then(self, src=None):
         rng = self.rng
         if src is None:
-            src = rng.randrange(len(self.kinds))
-        val = self.kinds[src] == "int" and rng.random() < 0.6
+            us = self.usable()
+            if not us:
+                return
+            src = rng.choice(us)
         h = rng.choice("ts")
-        self.ops.append("T%d:%s:%s" % (src, "v" if val else "o", h))
-        self.kinds.append("int" if val else "void")
-        self.nconts += 1
+        if self.kinds[src] in ("int", "void"):
+            r = rng.random()
+            c = "v" if r < 0.4 else "o" if r < 0.6 else rng.choice("ppqr")
+        else:
+            c = "o"
+        self.ops.append("T%d:%s:%s" % (src, c, h))
+        if c in "pqr":
+            self.kinds += ["int", "inner"]
+            if c == "p":
+                self.pend.append(self.nconts + 1)
+            self.nconts += 2
+        else:
+            self.kinds.append("int" if c == "v" else "void")
+            self.nconts += 1
 
     def when(self):
         rng = self.rng
-        ints = [i for i, k in enumerate(self.kinds) if k == "int"]
+        ints = self.usable(("int",))
         if len(ints) < 2:
             return
         c = rng.choice("AKV")
@@ -45,11 +67,24 @@ class Gen:
 
     def settle(self):
         rng = self.rng
-        p = rng.choice(self.roots)
+        if self.pend and rng.random() < 0.35:
+            k = rng.choice(self.pend)
+            self.ops.append("I%s%d:%d" % (rng.choice("RRJ"), k, rng.randint(1, 9)))
+            return
+        roots = [r for r in self.roots if r not in self.dropped]
+        if not roots:
+            return
+        p = rng.choice(roots)
         if rng.random() < 0.6:
-            self.ops.append("R%d:%d" % (p, rng.randint(1, 9)))
+            self.ops.append("R%d:%d" % (p, rng.randint(1, 9)) if self.kinds[p] == "int" else "Q%d" % p)
         else:
             self.ops.append("J%d:%d" % (p, rng.randint(1, 9)))
+
+    def drop(self):
+        us = self.usable()
+        if us:
+            p = self.rng.choice(us)
+            self.dropped.add(p); self.ops.append("X%d" % p)
 
     def build(self, n):
         self.new()
@@ -59,8 +94,10 @@ class Gen:
                 self.new()
             elif r < 0.55:
                 self.then()
-            elif r < 0.7:
+            elif r < 0.68:
                 self.when()
+            elif r < 0.72:
+                self.drop()
             else:
                 self.settle()
         return "S " + " ".join(self.ops)
@@ -72,6 +109,16 @@ ORDER_CASES = {
     "S N N N N V3,1,0,2 T4:o:s R0:5 R1:6 R2:7 R3:8": "S 4R8.6.5.7",
     "S N N A1,0 T2:o:s R0:4 R1:9": "S 2R9.4",
     "S N N N A2,0,1 T3:o:s R1:1 R2:2 R0:3": "S 3R2.3.1",
+    # a continuation returning a promise: the derived promise takes the returned promise's outcome, whenever it comes
+    "S N T0:p:t T1:o:s R0:1 IJ1:5": "S 1R1 2J5",
+    "S N T0:p:t T1:v:t T3:o:s R0:1 IJ1:5": "S 1R1 2J5 3J5",
+    "S N R0:1 T0:p:t T1:o:s IR1:8": "S 1R1 2R8",
+    "S N T0:q:t T1:o:s R0:4": "S 1R4 2R5",
+    "S N T0:r:t T1:o:s R0:4": "S 1R4 2J77",
+    "S N T0:p:s T1:o:s J0:6": "S 1J6",                 # swallowed: nothing reaches the derived promise
+    "S N T0:v:s T1:o:s J0:6": "S 0J6",
+    "S N T0:v:t T1:o:s J0:6": "S 0J6 1J6",
+    "S M Q0 T0:p:t X0 T1:o:s IJ1:4": "S 1R 2J4",       # the source promise is gone when the returned promise settles
 }
 
 
@@ -83,13 +130,14 @@ class C11(Spec):
     shard = 500
     rule = ("programs over the promise API interpreted on the real async.h: new promise, then() with value-returning or "
             "void callbacks and rethrowing or swallowing rejection handlers on base, derived, all-of and any-of promises, "
-            "resolve / reject (incl. settling twice), whenAll / whenAny over 2-3 inputs (variadic) and whenAll over an iterator range of 2-4 inputs, in every order of attaching and "
+            "callbacks returning a promise (pending and settled later, already fulfilled, already rejected) on int and void sources, promises whose handles the program drops, resolve / reject (incl. settling twice), whenAll / whenAny over 2-3 inputs (variadic) and whenAll over an iterator range of 2-4 inputs, in every order of attaching and "
             "settling the generator reaches (seeded programs of 3-14 operations plus systematic attach-before/after-settle "
             "families). The callback log (continuation, outcome, value/exception) is compared with the model's; the oracle "
             "checks at-most-once per continuation and that no settle of a still-pending promise raises. non-trivial = log "
             "with at least two entries; distinct by program")
-    assumptions = ["callbacks are inert (they do not touch promises)", "promise-returning continuations are exercised by the "
-                   "existing suite only; they are outside the model",
+    assumptions = ["callbacks are inert (they do not touch promises)", "a promise returned by a callback is created in the callback (Promise is move-only): "
+                   "it has no other continuation than the library's chainer; Promise<void>-returning callbacks do not compile",
+                   "a callback taking its argument as T&& moves the value out of the promise (by design of detail::tryMove): callbacks here take values / const references",
                    "a rejection that arrives wrapped in a second exception_ptr is reported as a different exception (code + 1000)"]
 
     def gen(self, rng, tier):
@@ -109,6 +157,20 @@ class C11(Spec):
                             cases.append("S N " + " ".join(chain) + " " + leaf + " " + settle)
                             cases.append("S N " + " ".join(chain) + " " + settle + " " + leaf)
                             cases.append("S N " + " ".join(chain[:pos]) + " " + settle + " " + " ".join(chain[pos:]) + " " + leaf)
+        # a callback returning a promise: every order of attaching the downstream continuation, settling the source and
+        # settling the returned promise; both handler kinds; int and void sources; source handles dropped or kept
+        import itertools
+        for root, res in (("N", "R0:1"), ("M", "Q0")):
+            for mode in "pqr":
+                for h1 in "ts":
+                    for down in ("T1:o:s", "T1:v:t T3:o:s", "T1:p:t T3:o:s"):
+                        for s0 in (res, "J0:6"):
+                            for inner in ("IR1:8", "IJ1:5", ""):
+                                for perm in itertools.permutations([x for x in (down, s0, inner) if x]):
+                                    cases.append(("S %s T0:%s:%s " % (root, mode, h1)) + " ".join(perm))
+                                if inner and s0 == res:
+                                    cases.append("S %s T0:%s:%s %s X0 %s %s" % (root, mode, h1, s0, down, inner))
+                                    cases.append("S %s T0:%s:%s %s %s X0 %s" % (root, mode, h1, down, s0, inner))
         for c in "AK":
             for order in (["R0:1", "R1:2", "R2:3"], ["R2:3", "R0:1", "R1:2"], ["J1:4", "R0:1", "J2:5"], ["R0:1", "J1:4", "J2:5"],
                           ["J0:7", "J1:8", "J2:9"], ["R1:2", "J0:7", "R2:3"]):
@@ -147,13 +209,19 @@ class C11(Spec):
         ops = case.split()[1:]
         settled = set()
         expected_errs = 0
+        inner_repeats = 0
         for o in ops:
-            if o[0] in "RJ":
+            if o[0] in "RJQ":
                 p = o[1:].split(":")[0]
                 if p in settled:
                     expected_errs += 1
                 settled.add(p)
-        if evs.count("E") != expected_errs:
+            elif o[0] == "I":     # takes effect only once the callback has run: a repeat may or may not be a double settle
+                p = "I" + o[2:].split(":")[0]
+                if p in settled:
+                    inner_repeats += 1
+                settled.add(p)
+        if not expected_errs <= evs.count("E") <= expected_errs + inner_repeats:
             return "settling a promise raised %d error(s) in the settling party, %d expected (only double settles): %s" % (evs.count("E"), expected_errs, impl)
         return None
 
@@ -162,7 +230,9 @@ class C11(Spec):
 
     def kind(self, case, impl):
         ops = case.split()[1:]
-        return "all/any" if any(o[0] in "AK" for o in ops) else "chain"
+        if any(o[0] == "T" and o.split(":")[1] in "pqr" for o in ops):
+            return "promise-returning"
+        return "all/any" if any(o[0] in "AKV" for o in ops) else "chain"
 
 
 def run(rep, tier, seed):
